@@ -405,4 +405,82 @@ theorem queryHypB_sound (l : L) (h : queryHypB l = true) : ObjCoh l ∧ StoreWf 
   · intro a m hm
     exact h4 _ (KV.mem_of_get hm)
 
+-- ------------------------------------------------------------------------------------ evictions and reopen cycles
+
+/-- every storage value the account cache holds is the value the database holds (up to nil / empty): what holds between the commit
+of one block and the flush of the next -/
+def CacheDb (l : L) : Prop :=
+  ∀ a m k v, KV.get l.cache.state a = some m → KV.get m k = some v → v.getD "" = ((KV.get l.db.state (a, k) : Bytes)).getD ""
+
+/-- under `CacheDb` the layers below the block's objects answer what the database holds -/
+theorem below_of_cacheDb (l : L) (h : CacheDb l) (a : Addr) (k : String) :
+    (below l a k).getD "" = ((KV.get l.db.state (a, k) : Bytes)).getD "" := by
+  unfold below
+  cases hm : KV.get l.cache.state a with
+  | none => rfl
+  | some m =>
+    simp only [Option.bind_some]
+    cases hk : KV.get m k with
+    | none => rfl
+    | some v => exact h a m k v hm hk
+
+theorem peekState_not_object (x : L) (a : Addr) (k : String) (hx : KV.get x.accounts a = none) : peekState x a k = below x a k := by
+  unfold peekState viewAcct
+  rw [hx]
+  simp only
+  cases hl : loadAcct x a with
+  | none => rfl
+  | some acc =>
+    obtain ⟨h1, h2⟩ := loadAcct_states hl
+    simp only [rdAcct, h1, h2, KV.get]
+
+/-- two ledgers with the same account objects and the same database, both with a storage cache that agrees with the database (one may
+have lost entries, or all of them): every storage read agrees, up to nil / empty -/
+theorem reads_agree_of_cacheDb (l l' : L) (hacc : l'.accounts = l.accounts) (hdb : l'.db = l.db)
+    (h : CacheDb l) (h' : CacheDb l') (a : Addr) (k : String) :
+    (peekState l' a k).getD "" = (peekState l a k).getD "" := by
+  have hb : (below l' a k).getD "" = (below l a k).getD "" := by
+    rw [below_of_cacheDb l' h' a k, below_of_cacheDb l h a k, hdb]
+  cases hg : KV.get l.accounts a with
+  | some acc =>
+    have hg' : KV.get l'.accounts a = some acc := by rw [hacc]; exact hg
+    rw [peekState_of_present hg', peekState_of_present hg]
+    simp only [rdAcct]
+    cases KV.get acc.dirtyState k with
+    | some v => rfl
+    | none =>
+      simp only
+      cases KV.get acc.originState k with
+      | some v => rfl
+      | none => exact hb
+  | none =>
+    have hg' : KV.get l'.accounts a = none := by rw [hacc]; exact hg
+    rw [peekState_not_object l' a k hg', peekState_not_object l a k hg]
+    exact hb
+
+/-- dropping a whole entry or one key of the storage cache keeps `CacheDb` -/
+theorem CacheDb.evictAcct {l : L} (h : CacheDb l) (a : Addr) :
+    CacheDb { l with cache := { l.cache with state := KV.erase l.cache.state a } } := by
+  intro b m k v hm hk
+  simp only at hm
+  by_cases hb : a = b
+  · subst hb; rw [KV.get_erase_eq] at hm; cases hm
+  · rw [KV.get_erase_ne _ _ _ hb] at hm; exact h b m k v hm hk
+
+theorem CacheDb.evictKey {l : L} (h : CacheDb l) (a : Addr) (m0 : KV String Bytes) (k0 : String) (hm0 : KV.get l.cache.state a = some m0) :
+    CacheDb { l with cache := { l.cache with state := KV.set l.cache.state a (KV.erase m0 k0) } } := by
+  intro b m k v hm hk
+  simp only at hm
+  rw [KV.get_set] at hm
+  split at hm
+  · rename_i e
+    subst e
+    injection hm with hm
+    subst hm
+    by_cases hkk : k0 = k
+    · subst hkk; rw [KV.get_erase_eq] at hk; cases hk
+    · rw [KV.get_erase_ne _ _ _ hkk] at hk; exact h a m0 k v hm0 hk
+  · exact h b m k v hm hk
+
+
 end Bxh.Ledger
